@@ -126,8 +126,8 @@ CLAIMED = {
         "copying the spawner's overrides (get/set_swapped_values); iteration and detype views (C10); $UPDATE_OS_ENVIRON mirroring; swap relies "
         "on stronger clauses of _set_item/_del_item which are now PROVED on the real functions under their side conditions (valid value, no sync partner, variable still "
         "known at exit: contracts #strong) - what remains assumed is that these side conditions hold at swap's call sites and on with-body "
-        "hypotheses (overlay stack discipline, no assignment of a swapped key in G, no deletion of a swapped override). Two genuine defects "
-        "repaired (fix: 2d8e883; 8acad4e: the same variable in `other` and as a keyword was restored to the wrong value - the contract no longer needs a no-duplicate precondition). Trusted: pyvc engine + models + z3/cvc5.",
+        "hypotheses (overlay stack discipline, no assignment of a swapped key in G, no deletion of a swapped override). Three genuine defects "
+        "repaired (fix: 2d8e883; 642ef66: a value failing to convert while entering a swap left the earlier variables swapped - bounded check only; 8acad4e: the same variable in `other` and as a keyword was restored to the wrong value - the contract no longer needs a no-duplicate precondition). Trusted: pyvc engine + models + z3/cvc5.",
    design="§3 C11"),
  "C10": dict(
    category="proof",
